@@ -74,6 +74,7 @@ func loadSpecs(dir string, U *Universe) (*SpecSet, error) {
 	ss.Funs["OStr"] = SpecFun{Name: "OStr", Args: []string{"Out", "Str"}, Ret: "Out"}
 	ss.Funs["ORune"] = SpecFun{Name: "ORune", Args: []string{"Out", "Int"}, Ret: "Out"}
 	ss.Funs["strings.ReplaceAll"] = SpecFun{Name: "strings.ReplaceAll", Args: []string{"Str", "Str", "Str"}, Ret: "Str"}
+	ss.Funs["strings.ContainsAny"] = SpecFun{Name: "strings.ContainsAny", Args: []string{"Str", "Str"}, Ret: "Bool"}
 	ss.Funs["strings.TrimLeft"] = SpecFun{Name: "strings.TrimLeft", Args: []string{"Str", "Str"}, Ret: "Str"}
 	ss.Funs["strconv.FormatUint"] = SpecFun{Name: "strconv.FormatUint", Args: []string{"Int", "Int"}, Ret: "Str"}
 	files, _ := filepath.Glob(filepath.Join(dir, "*.smt2"))
